@@ -558,11 +558,216 @@ fn one_case(seed: u64, case: u64, trace_on: bool) -> (Out, Option<Fail>) {
     (out, fail)
 }
 
+// ---------------------------------------------------------------------------------------------
+// user-defined key/value types: same name with another width, another name with the same width
+
+/// fixed-width user type called "rv::Point", W bytes wide, ordered bytewise
+#[derive(Debug)]
+pub struct Pt<const W: usize>;
+/// variable-width user type with the same name
+#[derive(Debug)]
+pub struct PtVar;
+/// fixed-width user type with another name
+#[derive(Debug)]
+pub struct Oth<const W: usize>;
+
+macro_rules! fixed_udt {
+    ($t:ident, $name:expr) => {
+        impl<const W: usize> redb::Value for $t<W> {
+            type SelfType<'a> = [u8; W] where Self: 'a;
+            type AsBytes<'a> = [u8; W] where Self: 'a;
+            fn fixed_width() -> Option<usize> {
+                Some(W)
+            }
+            fn from_bytes<'a>(data: &'a [u8]) -> [u8; W]
+            where
+                Self: 'a,
+            {
+                let mut o = [0u8; W];
+                let n = data.len().min(W);
+                o[..n].copy_from_slice(&data[..n]);
+                o
+            }
+            fn as_bytes<'a, 'b: 'a>(value: &'a [u8; W]) -> [u8; W]
+            where
+                Self: 'b,
+            {
+                *value
+            }
+            fn type_name() -> redb::TypeName {
+                redb::TypeName::new($name)
+            }
+        }
+        impl<const W: usize> redb::Key for $t<W> {
+            fn compare(a: &[u8], b: &[u8]) -> std::cmp::Ordering {
+                a.cmp(b)
+            }
+        }
+    };
+}
+fixed_udt!(Pt, "rv::Point");
+fixed_udt!(Oth, "rv::Other");
+impl redb::Value for PtVar {
+    type SelfType<'a> = &'a [u8] where Self: 'a;
+    type AsBytes<'a> = &'a [u8] where Self: 'a;
+    fn fixed_width() -> Option<usize> {
+        None
+    }
+    fn from_bytes<'a>(data: &'a [u8]) -> &'a [u8]
+    where
+        Self: 'a,
+    {
+        data
+    }
+    fn as_bytes<'a, 'b: 'a>(value: &'a &'b [u8]) -> &'a [u8]
+    where
+        Self: 'b,
+    {
+        value
+    }
+    fn type_name() -> redb::TypeName {
+        redb::TypeName::new("rv::Point")
+    }
+}
+impl redb::Key for PtVar {
+    fn compare(a: &[u8], b: &[u8]) -> std::cmp::Ordering {
+        a.cmp(b)
+    }
+}
+
+/// how to make the i-th value of a user type
+pub trait Mk: redb::Value {
+    const DESC: (&'static str, Option<usize>);
+    fn with<R>(i: u8, f: impl FnOnce(&Self::SelfType<'_>) -> R) -> R;
+}
+impl<const W: usize> Mk for Pt<W> {
+    const DESC: (&'static str, Option<usize>) = ("rv::Point", Some(W));
+    fn with<R>(i: u8, f: impl FnOnce(&[u8; W]) -> R) -> R {
+        f(&[i; W])
+    }
+}
+impl<const W: usize> Mk for Oth<W> {
+    const DESC: (&'static str, Option<usize>) = ("rv::Other", Some(W));
+    fn with<R>(i: u8, f: impl FnOnce(&[u8; W]) -> R) -> R {
+        f(&[i; W])
+    }
+}
+impl Mk for PtVar {
+    const DESC: (&'static str, Option<usize>) = ("rv::Point", None);
+    fn with<R>(i: u8, f: impl FnOnce(&&[u8]) -> R) -> R {
+        let v = vec![i; 3 + (i as usize % 9)];
+        f(&v.as_slice())
+    }
+}
+
+fn udt_create<K: redb::Key + Mk + 'static, V: redb::Value + Mk + 'static>(db: &Database, multimap: bool) -> Result<(), String> {
+    let txn = db.begin_write().map_err(|e| e.to_string())?;
+    if multimap {
+        let mut t = txn.open_multimap_table(MultimapTableDefinition::<K, Pt<4>>::new("udt")).map_err(|e| e.to_string())?;
+        for i in 1..20u8 {
+            K::with(i, |k| <Pt<4> as Mk>::with(i, |v| t.insert(k, v).map(|_| ()))).map_err(|e| e.to_string())?;
+        }
+    } else {
+        let mut t = txn.open_table(TableDefinition::<K, V>::new("udt")).map_err(|e| e.to_string())?;
+        for i in 1..20u8 {
+            K::with(i, |k| V::with(i, |v| t.insert(k, v).map(|_| ()))).map_err(|e| e.to_string())?;
+        }
+    }
+    txn.commit().map_err(|e| e.to_string())
+}
+
+/// open "udt" as (K, V) in a write and in a read transaction; returns (write accepted, read accepted)
+fn udt_open<K: redb::Key + Mk + 'static, V: redb::Value + Mk + 'static>(db: &Database, multimap: bool) -> Result<(bool, bool), String> {
+    let judge = |r: Result<(), TableError>| -> Result<bool, String> {
+        match r {
+            Ok(()) => Ok(true),
+            Err(TableError::TableTypeMismatch { .. }) | Err(TableError::TypeDefinitionChanged { .. }) => Ok(false),
+            Err(e) => Err(format!("unexpected error {e}")),
+        }
+    };
+    let txn = db.begin_write().map_err(|e| e.to_string())?;
+    let w = if multimap {
+        judge(txn.open_multimap_table(MultimapTableDefinition::<K, Pt<4>>::new("udt")).map(|_| ()))?
+    } else {
+        judge(txn.open_table(TableDefinition::<K, V>::new("udt")).map(|_| ()))?
+    };
+    txn.abort().map_err(|e| e.to_string())?;
+    let rt = db.begin_read().map_err(|e| e.to_string())?;
+    let r = if multimap {
+        judge(rt.open_multimap_table(MultimapTableDefinition::<K, Pt<4>>::new("udt")).map(|_| ()))?
+    } else {
+        judge(rt.open_table(TableDefinition::<K, V>::new("udt")).map(|_| ()))?
+    };
+    Ok((w, r))
+}
+
+type UdtFn = fn(&Database, bool) -> Result<(), String>;
+type UdtOpenFn = fn(&Database, bool) -> Result<(bool, bool), String>;
+type Desc = (&'static str, Option<usize>);
+
+macro_rules! udt_table {
+    ($($k:ty),* ; $($v:ty),*) => {{
+        let mut out: Vec<(Desc, Desc, UdtFn, UdtOpenFn)> = vec![];
+        udt_table!(@k out; [$($k),*]; [$($v),*]);
+        out
+    }};
+    (@k $out:ident; [$($k:ty),*]; $vs:tt) => {
+        $( udt_table!(@v $out; $k; $vs); )*
+    };
+    (@v $out:ident; $k:ty; [$($v:ty),*]) => {
+        $( $out.push((<$k as Mk>::DESC, <$v as Mk>::DESC, udt_create::<$k, $v> as UdtFn, udt_open::<$k, $v> as UdtOpenFn)); )*
+    };
+}
+
+/// one stored (key type, value type) against every requested pair
+fn udt_case(seed: u64, case: u64) -> (u64, u64, Option<String>) {
+    let table = udt_table!(Pt<8>, Pt<12>, PtVar, Oth<8> ; Pt<8>, Pt<12>, PtVar, Oth<8>);
+    let mut rng = Rng::for_case(seed, "C17udt", case);
+    let stored = rng.usize(table.len());
+    let multimap = rng.chance(1, 3);
+    let cfg = Cfg { page_size: *rng.pick(&[512usize, 4096]), region_pages: Some(64), cache: 1 << 20 };
+    let db = match cfg.builder().create_with_backend(redb::backends::InMemoryBackend::new()) {
+        Ok(d) => d,
+        Err(e) => return (0, 0, Some(format!("create: {e}"))),
+    };
+    let (sk, sv, create, _) = table[stored];
+    if let Err(e) = create(&db, multimap) {
+        return (0, 0, Some(format!("creating the table as ({sk:?}, {sv:?}): {e}")));
+    }
+    let (mut opens, mut refused) = (0, 0);
+    for (rk, rv, _, open) in &table {
+        // a multimap stratum always stores Pt<4> values: only the key type varies
+        let same = *rk == sk && (multimap || *rv == sv);
+        match crate::report::guarded(|| open(&db, multimap)) {
+            Ok(Ok((w, r))) => {
+                opens += 2;
+                for (what, accepted) in [("write", w), ("read", r)] {
+                    if accepted && !same {
+                        return (opens, refused, Some(format!(
+                            "a {} stored with key type {sk:?} and value type {sv:?} (name, fixed width) was opened in a {what} transaction with key type {rk:?} and value type {rv:?}: the stored bytes are reinterpreted instead of the open being refused",
+                            if multimap { "multimap table" } else { "table" }
+                        )));
+                    }
+                    if !accepted && same {
+                        return (opens, refused, Some(format!("opening a table with exactly its stored user-defined types ({sk:?}, {sv:?}) was refused in a {what} transaction")));
+                    }
+                    if !accepted {
+                        refused += 1;
+                    }
+                }
+            }
+            Ok(Err(e)) => return (opens, refused, Some(format!("opening as ({rk:?}, {rv:?}) a table stored as ({sk:?}, {sv:?}): {e}"))),
+            Err(p) => return (opens, refused, Some(format!("opening as ({rk:?}, {rv:?}) a table stored as ({sk:?}, {sv:?}) panicked: {}", p.short()))),
+        }
+    }
+    (opens, refused, None)
+}
+
 pub fn run(rep: &Report) {
     rep.set_rule(
         "case = a sequence of transactions over 8 table names and 10 (kind, key type, value type) instantiations that include same-width pairs (u64/i64, &str/&[u8], (u32,u32)/u64; normal and multimap): open (creating, with the stored types or deliberately others), second open while a handle is alive, delete and rename (to a new name, an existing name, itself; with the right or the wrong table kind; while a handle is open), list; every outcome must be the one a name -> (kind, types, contents) map prescribes (Ok, TableAlreadyOpen, TableDoesNotExist, TableExists, TableIsMultimap, TableIsNotMultimap, TableTypeMismatch). Contents follow a table through renames; catalog changes are invisible to readers before commit and vanish on abort/drop; readers re-open every table with its own and with other types and through the untyped API; the ownership accountant runs after every transaction (a deleted table's pages may not leak) and after deleting everything no data page and, after 3 empty commits, no pending-free page may remain. evaluations = catalog operations; distinct_nontrivial = distinct cases with at least one refused operation",
     );
-    rep.assume("type-mismatch detection is exercised with built-in types only; user-defined types are not generated");
+    rep.assume("user-defined types are exercised in a separate stratum (same name with another fixed width or variable width, another name with the same width), in key and value position, tables and multimap tables, write and read transactions");
     let n = match rep.tier {
         Tier::Quick => 40_000u64,
         Tier::Thorough => 1_000_000u64,
@@ -572,6 +777,20 @@ pub fn run(rep: &Report) {
         n,
         |case| {
             let replay = json!({"check": "C17", "seed": rep.seed, "case": case, "tier": rep.tier.name()});
+            if case % 50 == 7 {
+                let (opens, refused, fail) = udt_case(rep.seed, case);
+                rep.eval(opens.max(1));
+                rep.count("udt.cases", 1);
+                rep.count("udt.opens_judged", opens);
+                rep.count("udt.opens_refused", refused);
+                if refused > 0 {
+                    rep.distinct(mix(case, 0x0d7));
+                }
+                if let Some(e) = fail {
+                    rep.violation(format!("udt:{}", short_sig(&e)), format!("case {case}: {e}"), replay);
+                }
+                return;
+            }
             let trace_on = rep.replay_only.is_some() || rep.want_sample();
             let (out, fail) = one_case(rep.seed, case, trace_on);
             let ops: u64 = out.ops.values().sum();
